@@ -7,6 +7,7 @@ import (
 	"math"
 	"os"
 	"reflect"
+	"strings"
 	"time"
 
 	"verifharness/drv"
@@ -38,6 +39,40 @@ func (e *emitter) emit(label string, v interface{}) {
 		return
 	}
 	e.emitEv(label, func() proj.M { return drv.RoundTrip(v) })
+}
+
+// emitStructsOnly: the name map names the classes only, so every list is written untyped and is
+// converted to the declared slice type by the decoder.
+func (e *emitter) emitStructsOnly(label string, v interface{}) {
+	if e.collect != nil {
+		return
+	}
+	e.emitEv(label, func() proj.M {
+		typMap, nameMap := hessian.ExtractTypeNameMap(v)
+		for k, n := range nameMap {
+			if strings.HasPrefix(k, "[") || strings.HasPrefix(n, "[") {
+				delete(nameMap, k)
+			}
+		}
+		ev := drv.RoundTripWith(v, typMap, nameMap)
+		ev["xpanic"], ev["xmsg"] = 0, ""
+		return ev
+	})
+}
+
+// emitBehind: the encoder is handed a pointer to v (v itself being a pointer); the result is compared with v.
+func (e *emitter) emitBehind(label string, v interface{}) {
+	if e.collect != nil {
+		return
+	}
+	e.emitEv(label, func() proj.M {
+		typMap, nameMap := hessian.ExtractTypeNameMap(v)
+		p := reflect.New(reflect.TypeOf(v))
+		p.Elem().Set(reflect.ValueOf(v))
+		ev := drv.RoundTripAs(v, p.Interface(), typMap, nameMap)
+		ev["xpanic"], ev["xmsg"] = 0, ""
+		return ev
+	})
 }
 
 func (e *emitter) emitEv(label string, mk func() proj.M) {
@@ -83,7 +118,7 @@ var zooTypes = []interface{}{
 	zoo.Scalars{}, zoo.Small{}, zoo.Slices{}, zoo.Conts{}, zoo.Derived{}, zoo.CustomHolder{}, zoo.Custom{},
 	zoo.NamedMapHolder{}, zoo.Node{}, zoo.FNode{}, zoo.Ping{}, zoo.Pong{}, zoo.Wide{}, zoo.Five{},
 	zoo.HI{}, zoo.HI8{}, zoo.HI16{}, zoo.HI32{}, zoo.HI64{}, zoo.HU{}, zoo.HU8{}, zoo.HU16{}, zoo.HU32{}, zoo.HU64{},
-	zoo.HF32{}, zoo.HF64{}, zoo.HStr{}, zoo.HBin{}, zoo.HTime{}, zoo.HBool{}, zoo.HPTime{}, zoo.Named{}, zoo.Outer{}, zoo.Interior{},
+	zoo.HF32{}, zoo.HF64{}, zoo.HStr{}, zoo.HBin{}, zoo.HTime{}, zoo.HBool{}, zoo.HPTime{}, zoo.Named{}, zoo.Outer{}, zoo.Interior{}, zoo.Uni{},
 }
 
 var topTypes = []interface{}{
@@ -217,6 +252,15 @@ func famC01(e *emitter, g *gen.G, thorough bool) {
 		for _, pad := range []int{4040 + n%60, 4070, 4085, 4090, 4095} {
 			e.emit(fmt.Sprintf("pad%d/Scalars", pad), zoo.Scalars{S: g.String(pad, 0), I64: ls[0], F64: fs[0], T: ts[0], U64: uint64(ls[1])})
 		}
+	}
+	// code points that code tends to treat specially, in every string position
+	for i, r := range []rune{0xfffd, 0xfeff, 0, 0x7f, 0x85, 0xd7ff, 0xe000, 0xfffe, 0xffff, 0x10ffff} {
+		c := string(r)
+		e.emit(fmt.Sprintf("special%d/top", i), c)
+		e.emit(fmt.Sprintf("special%d/Scalars", i), zoo.Scalars{S: "a" + c + "b"})
+		e.emit(fmt.Sprintf("special%d/[]string", i), []string{c, "", c + c})
+		e.emit(fmt.Sprintf("special%d/map", i), map[string]string{c: c, "k": "v" + c})
+		e.emit(fmt.Sprintf("special%d/Conts", i), zoo.Conts{MS: map[string]string{c: c}, Vals: []zoo.Item{{K: c, V: 1}}})
 	}
 	// 1..20 distinct classes per message; k-th class inside a list
 	for k := 1; k <= 20; k++ {
@@ -508,6 +552,9 @@ func famC04(e *emitter, g *gen.G, thorough bool) {
 				}
 			}
 			e.emit(fmt.Sprintf("ab%d/%d", k, idx), ns[0])
+			if k <= 2 || idx%7 == 0 { // the root handed over as a pointer to the pointer
+				e.emitBehind(fmt.Sprintf("ab%d/%d/pp", k, idx), ns[0])
+			}
 		}
 	}
 	// (ii) every edge assignment over 2 nodes x every filler in front of the pointers
@@ -590,6 +637,9 @@ func famC04(e *emitter, g *gen.G, thorough bool) {
 		ns[1].L = pick(idx / 13)
 		ns[0].A = ns[1]
 		e.emit(fmt.Sprintf("lists/%d", idx), ns[0])
+		if idx%3 == 0 {
+			e.emitStructsOnly(fmt.Sprintf("lists/%d/untyped", idx), ns[0])
+		}
 		ns2 := []*zoo.Node{{Name: "m0"}, {Name: "m1"}}
 		mk := func(c int) map[string]*zoo.Node {
 			switch c % 4 {
@@ -610,6 +660,37 @@ func famC04(e *emitter, g *gen.G, thorough bool) {
 			ns2[1].M = ns2[0].M // the same map in both
 		}
 		e.emit(fmt.Sprintf("maps/%d", idx), ns2[0])
+	}
+	// a cycle that runs THROUGH a list: an element of the list holds that very list, so the back-reference
+	// is read while the list is still being read (with and without names for the list types)
+	for idx := 0; idx < 12*3; idx++ {
+		ns := []*zoo.Node{{Name: "n0"}, {Name: "n1"}, {Name: "n2"}}
+		var s []*zoo.Node
+		if c := idx % 12; c < 3 {
+			s = []*zoo.Node{ns[c]}
+		} else {
+			s = []*zoo.Node{ns[(c-3)/3], ns[(c-3)%3]}
+		}
+		ns[0].L = s
+		switch idx / 12 {
+		case 0:
+			ns[1].L = s
+		case 1:
+			ns[2].L = s
+		default:
+			ns[1].L, ns[2].L = s, s
+			ns[2].A = ns[0]
+		}
+		e.emit(fmt.Sprintf("listcycle/%d", idx), ns[0])
+		e.emitStructsOnly(fmt.Sprintf("listcycle/%d/untyped", idx), ns[0])
+		pl := zoo.Nodes(s)
+		ns[0].L, ns[0].PL, ns[1].PL = nil, &pl, &pl
+		e.emit(fmt.Sprintf("listcycle/%d/behindptr", idx), ns[0])
+		m := map[string]*zoo.Node{"x": s[0], "y": s[len(s)-1]}
+		ms := []*zoo.Node{{Name: "m0"}, {Name: "m1"}}
+		m["m1"] = ms[1]
+		ms[0].M, ms[1].M = m, m
+		e.emit(fmt.Sprintf("mapcycle/%d", idx), ms[0])
 	}
 	for v := 0; v < 16; v++ {
 		a, b, c := &zoo.Node{Name: "a"}, &zoo.Node{Name: "b"}, &zoo.Node{Name: "c"}
@@ -634,6 +715,8 @@ func famC04(e *emitter, g *gen.G, thorough bool) {
 		}
 		a.A, a.B = b, c
 		e.emit(fmt.Sprintf("shared/%d", v), a)
+		e.emitStructsOnly(fmt.Sprintf("shared/%d/untyped", v), a)
+		e.emitBehind(fmt.Sprintf("shared/%d/pp", v), a)
 	}
 	// (iii'') one address, several values: a struct and its first field, slices of different length
 	// over one array, each followed by genuine back-references
@@ -736,6 +819,12 @@ func famC06(e *emitter, g *gen.G, thorough bool) {
 				vals = append(vals, w)
 			}
 			vals = append(vals, wideElems(20)[16], wideElems(20)[17])
+		}
+		if i%10 == 4 { // strings / binaries of several chunks with further values behind them; U+FFFD as a character
+			long := g.String(2049+g.R.Intn(4200), []int{0, -1, 2}[i/10%3])
+			bin := make([]byte, 4097+g.R.Intn(9000))
+			g.R.Read(bin)
+			vals = append(vals, "\ufffd", long, "next", int32(7), "a\ufffdb", bin, []byte{1}, long[:2048], "x", long[:2049], zoo.HStr{V: long}, "tail")
 		}
 		for j := 0; j < n; j++ {
 			switch c := g.R.Intn(14); {
